@@ -9,30 +9,32 @@ import (
 )
 
 // ---------------------------------------------------------------------------------------------
-// Known defects of the unchanged tree whose trigger is kept out of the generated workload (see
-// notes/C03.md and findings/C03/).  The exclusion is decided on the MODEL, before webrender runs:
-// a document is excluded when the reference cascade says that the defective rule would change a
-// winner.  Set a flag to false once the defect is repaired in /repo: the cases come back.
+// Defects found by this check on the original tree (see notes/C03.md and findings/C03/).  While a
+// defect was open its trigger was kept out of the generated workload by these flags (the exclusion
+// was decided on the MODEL, before webrender runs: a document was excluded when the reference
+// cascade said that the defective rule would change a winner).  All seven are repaired in /repo
+// now (16b6950, 1fec70f, 2cbbd68, c440a0b, 468a4a7, f194d23, 3e97ba5), every flag is false and the
+// sub-domains are part of the workload; the mechanism stays for a future open finding.
 // ---------------------------------------------------------------------------------------------
 var (
 	// F-C03-style-attr: style attribute has specificity (1,0,0) instead of outranking selectors.
-	excludeStyleAttrVsID = true
+	excludeStyleAttrVsID = false
 	// F-C03-nested-order: a rule's own declarations are emitted after its nested rules.
-	excludeNestedOwnOrder = true
+	excludeNestedOwnOrder = false
 	// F-C03-nested-badsel: an invalid selector on a nested rule drops the whole parent rule.
-	excludeNestedBadSel = true
+	excludeNestedBadSel = false
 	// F-C03-nested-list: the nested prelude is not split on commas: in a nested selector list only
 	// the first selector is made relative ("& sel"), and none is when any selector contains "&".
 	// Nested selector lists of two or more selectors are generated with "&" in every selector.
-	excludeNestedRelativeList = true
+	excludeNestedRelativeList = false
 	// F-C03-import-after-empty-rule: "a{} @import 'x';" honours the import (a rule or @media with an
 	// empty block is skipped before it can end the @import section).
-	excludeImportAfterEmptyRule = true
+	excludeImportAfterEmptyRule = false
 	// F-C03-import-url-function: @import url("x") (url function with a quoted string) is ignored;
 	// only the string and the unquoted url(x) forms are generated.
-	excludeImportURLFunction = true
+	excludeImportURLFunction = false
 	// F-C03-media-attr-case: <style media="PRINT"> is compared case-sensitively.
-	excludeMediaAttrCase = true
+	excludeMediaAttrCase = false
 )
 
 // Development aid: VERIF_C03_INCLUDE=all (or a comma-separated list of style-attr, nested-order,
@@ -169,6 +171,16 @@ func buildTemplates() []tmpl {
 			}
 		}
 	}
+	// carriers added with the repairs of the seven findings (appended so that earlier indexes keep
+	// their meaning): url("x") import, import after an empty rule, invalid nested selector, nested
+	// selector lists, declarations after nested rules
+	for _, c := range []string{"import-urlfn", "late-import-empty", "nestbad", "nestlist", "nestlist&", "trail"} {
+		for _, imp := range []bool{false, true} {
+			for _, s := range []int{2, 3} {
+				out = append(out, tmpl{"author", imp, c, s})
+			}
+		}
+	}
 	for _, s := range []int{0, 2, 3, 11} {
 		out = append(out, tmpl{"author", false, "hint-sheet", s})
 	}
@@ -301,6 +313,28 @@ func (b *builder) place(host *hostSheet, carrier string, s []Complex, decls []De
 	case "badsel":
 		rule.BadSel = true
 		host.body = append(host.body, rule)
+	case "import-urlfn":
+		// @import url("f")
+		f := b.file(&Sheet{Items: []Item{rule}})
+		host.imports = append(host.imports, Item{Kind: "import", File: f, Var: 2})
+	case "late-import-empty":
+		// an empty style rule ends the @import section as well
+		f := b.file(&Sheet{Items: []Item{rule}})
+		host.body = append(host.body, Item{Kind: "rule", Sel: sel(cx(classS("c")))}, Item{Kind: "import", File: f})
+	case "nestbad":
+		// a nested rule with an invalid selector is dropped alone: the parent's declaration stays
+		bad := Item{Kind: "rule", Sel: sel(cx(classS("c"))), BadSel: true, Decls: []Decl{b.decl("order", false)}}
+		rule.Nested = []Item{bad}
+		host.body = append(host.body, rule)
+	case "nestlist":
+		// nested selector list without "&": every selector is relative to the parent .k
+		host.body = append(host.body, Item{Kind: "rule", Sel: sel(cx(classS("k"))), Nested: []Item{{Kind: "rule", Sel: append(sel(cx(classS("zz"))), s...), Decls: decls}}})
+	case "nestlist&":
+		// mixed list: "&.c" selects what the shape selects (if .c), ".c" alone is relative to it
+		host.body = append(host.body, Item{Kind: "rule", Sel: s, Nested: []Item{{Kind: "rule", Sel: sel(cx(ampS(), classS("c")), cx(classS("c"))), Decls: decls}}})
+	case "trail":
+		// the declaration is written after a nested rule
+		host.body = append(host.body, Item{Kind: "rule", Sel: s, Nested: []Item{{Kind: "rule", Sel: sel(cx(ampS())), Decls: []Decl{b.decl("order", false)}}}, Trail: decls})
 	default:
 		panic("c03 gen: unknown carrier " + carrier)
 	}
@@ -404,7 +438,7 @@ func buildTuple(ts []tmpl, arrangement int, variant int) caseIn {
 			case t.carrier == "mediaattr-":
 				a = b.newAuthor("style", []string{"screen"})
 			case t.carrier == "mediaattr+":
-				a = b.newAuthor("style", []string{"tv", "print"})
+				a = b.newAuthor("style", []string{"tv", "PRINT"})
 			case t.carrier == "link":
 				a = b.newAuthor("link", nil)
 			case arrangement >= 1 && sharedAuthor != nil:
